@@ -972,6 +972,11 @@ def json_compat_obj_decode(data_type, obj, caller_permissions=None,
     if isinstance(data_type, bv.Primitive):
         return decoder.make_stone_friendly(
             data_type, obj, True)
+    elif isinstance(data_type, (bv.List, bv.Map, bv.Nullable)):
+        # The helper leaves the validation of primitives, bounds and items to the struct
+        # or union the value is assigned to. At the top level there is none.
+        return data_type.validate(
+            decoder.json_compat_obj_decode_helper(data_type, obj))
     else:
         return decoder.json_compat_obj_decode_helper(
             data_type, obj)
